@@ -708,8 +708,9 @@ def run(cx, tier='quick'):
     from .c13 import include_own_scanners
     include_own_scanners(cx, facts, rep, ['::debug::'])
     # a variant with nothing to show is displayed as its effective name: the three variant kinds must agree on when that name is missing
-    from .c13_sel import check_need_name_siblings
+    from .c13_sel import check_need_name_siblings, check_has_fields_flag
     check_need_name_siblings(cx, facts, rep)
+    check_has_fields_flag(cx, facts, rep)
     from .helpers import check_path_to_string, check_ident_or_index
     check_path_to_string(cx, rep)
     check_ident_or_index(cx, rep)
